@@ -25,7 +25,7 @@ LEVEL = "exploration"
 RUNS = {"quick": 40000, "thorough": 1000000}
 WALL = {"quick": 240, "thorough": 1500}
 PARTITIONS = [{"name": "default", "env": {}}]
-FAULT_KINDS = build.LAYOUT_FAULTS + ["block_input:C", "block_input:F", "keep_missed_off", "reorder", "batch_split", "empty_batch", "nan_entry", "merge_partials", "rescale", "invalidate",
+FAULT_KINDS = build.LAYOUT_FAULTS + ["normalised_through_a_collection", "block_input:C", "block_input:F", "keep_missed_off", "reorder", "batch_split", "empty_batch", "nan_entry", "merge_partials", "rescale", "invalidate",
                "copy", "duplicate_values"]
 RULE = ("one run = 1-4 one-dimensional accumulators over consecutive bins fed in-range values (<= 30 entries, "
         "weights none/int/dyadic/float) by construction, fill and fill_n in seeded chunkings, combined with +, += and "
@@ -144,7 +144,8 @@ def generate(rng, seed, part):
                         ops.append({"op": "fill_n", "n": nodes - 1, "cont": rng.choice(conts),
                                     "idx": [rng.randrange(n) for _ in range(rng.randint(1, 4))]})
         elif r < 0.85:
-            ops.append({"op": "scale", "a": a, "how": rng.choice(["mul", "div", "imul", "idiv", "normalize", "rmul"]),
+            ops.append({"op": "scale", "a": a, "how": rng.choice(["mul", "div", "imul", "idiv", "normalize", "rmul",
+                                                                  "coll_normalize_all", "coll_normalize_all_inplace"]),
                         "c": rng.choice([2, 3, 0.5, 0.25, 2.5, 0.1, 7]), "out": nodes})
             nodes += 1
         else:
@@ -440,9 +441,22 @@ def execute(plan, ctx):
             c = op["c"]
             how = op["how"]
             total = a.h.total
-            if how == "normalize" and not total > 0:
+            if how in ("normalize", "coll_normalize_all", "coll_normalize_all_inplace") and not total > 0:
                 continue
-            if how == "mul":
+            if how.startswith("coll_"):
+                # the same normalisation asked of a collection that holds the histogram (and a sibling)
+                from physt.histogram_collection import HistogramCollection
+
+                inplace = how.endswith("inplace")
+                sib = a.h.copy()
+                target = a.h if inplace else a.h.copy()
+                ok, res = attempt(lambda: HistogramCollection(target, sib).normalize_all(inplace=inplace))
+                if ok:
+                    res = res.histograms[0]
+                k = 1.0 / total
+                how = "imul" if inplace else "coll_normalize_all"
+                ctx.fault("normalised_through_a_collection")
+            elif how == "mul":
                 ok, res = attempt(lambda: a.h * c)
                 k = c
             elif how == "rmul":
